@@ -75,7 +75,7 @@ func Relocate(err error, filename string, line, col int) error {
 	case *scanner.Error:
 		relocatePos(&e.Pos, filename, line, col)
 	default:
-		panic("todo: " + reflect.TypeOf(err).String())
+		// an error without position information (e.g. cl.ErrNoDocFound): nothing to relocate
 	}
 	return err
 }
